@@ -10,8 +10,6 @@ use crate::variant::Variant;
 use std::cell::RefCell;
 use std::collections::BTreeMap;
 use std::rc::Rc;
-use std::sync::atomic::{AtomicUsize, Ordering};
-use std::sync::Mutex;
 
 /// ≈ 40x the draws of a typical sign call (512: ~25k, 1024: ~50k)
 pub fn sign_cap(n: usize) -> u64 {
@@ -139,20 +137,31 @@ pub fn keygen_sim<V: Variant>(
     (r, tr)
 }
 
+/// One key of the per-invocation pool. Pure data: the check process itself
+/// never executes the code under test; keys are generated in isolated child
+/// processes and decoded (from_bytes) inside each run's own process.
 pub struct KeyEntry<V: Variant> {
     pub seed: [u8; 32],
-    pub sk: V::Sk,
-    pub pk: V::Pk,
     pub sk_bytes: Vec<u8>,
     pub pk_bytes: Vec<u8>,
     /// a few honest signatures (message, signature bytes)
     pub sigs: Vec<(Vec<u8>, Vec<u8>)>,
+    _v: std::marker::PhantomData<V>,
+}
+
+impl<V: Variant> KeyEntry<V> {
+    /// decode the key pair inside the current (run) process
+    pub fn load(&self) -> Result<(V::Sk, V::Pk), String> {
+        let sk = guarded(|| V::sk_from_bytes(&self.sk_bytes)).map_err(|u| u.signature())??;
+        let pk = guarded(|| V::pk_from_bytes(&self.pk_bytes)).map_err(|u| u.signature())??;
+        Ok((sk, pk))
+    }
 }
 
 pub struct KeyPool<V: Variant> {
     pub keys: Vec<KeyEntry<V>>,
-    /// keygen failures while building the pool (unwind / no progress), by seed
-    pub failures: Vec<([u8; 32], Unwind)>,
+    /// keygen failures while building the pool, by seed
+    pub failures: Vec<([u8; 32], String)>,
 }
 
 pub fn message(rng: &mut Prng) -> Vec<u8> {
@@ -173,51 +182,84 @@ pub fn message(rng: &mut Prng) -> Vec<u8> {
 
 impl<V: Variant> KeyPool<V> {
     /// Build `count` keys from seeds derived from `pool_seed`, with `nsigs`
-    /// honest signatures each; parallel over `workers`.
+    /// honest signatures each; every key in its own child process.
     pub fn build(pool_seed: u64, count: usize, nsigs: usize, workers: usize) -> KeyPool<V> {
-        let next = AtomicUsize::new(0);
-        let out: Mutex<BTreeMap<usize, Result<KeyEntry<V>, ([u8; 32], Unwind)>>> = Mutex::new(BTreeMap::new());
-        std::thread::scope(|sc| {
-            for _ in 0..workers.max(1).min(count.max(1)) {
-                sc.spawn(|| loop {
-                    let i = next.fetch_add(1, Ordering::SeqCst);
-                    if i >= count {
-                        break;
-                    }
-                    let mut rng = Prng::new(mix(&[pool_seed, V::N as u64, i as u64]));
-                    let seed = rng.seed32();
-                    let (r, _tr) = keygen_sim::<V>(seed, None, None);
-                    let e = match r {
-                        Err(u) => Err((seed, u)),
-                        Ok((sk, pk)) => {
-                            let mut sigs = Vec::new();
-                            for j in 0..nsigs {
-                                let msg = message(&mut rng);
-                                let plan = SignPlan::uniform(mix(&[pool_seed, i as u64, j as u64, 7]));
-                                if let (Ok(sig), _) = sign_sim::<V>(&sk, &msg, &plan, None) {
-                                    sigs.push((msg, V::sig_to_bytes(&sig)));
-                                }
-                            }
-                            Ok(KeyEntry {
-                                seed,
-                                sk_bytes: V::sk_to_bytes(&sk),
-                                pk_bytes: V::pk_to_bytes(&pk),
-                                sk,
-                                pk,
-                                sigs,
-                            })
+        use crate::rng::{hex, unhex};
+        let items: Vec<u64> = (0..count as u64).collect();
+        let seed_of = |i: u64| {
+            let mut rng = Prng::new(mix(&[pool_seed, V::N as u64, i]));
+            (rng.seed32(), rng)
+        };
+        let job = |i: u64| -> Vec<u8> {
+            let (seed, mut rng) = seed_of(i);
+            let (r, _tr) = keygen_sim::<V>(seed, None, None);
+            let v = match r {
+                Err(u) => serde_json::json!({"err": u.signature()}),
+                Ok((sk, pk)) => {
+                    let mut sigs = Vec::new();
+                    for j in 0..nsigs {
+                        let msg = message(&mut rng);
+                        let plan = SignPlan::uniform(mix(&[pool_seed, i, j as u64, 7]));
+                        if let (Ok(sig), _) = sign_sim::<V>(&sk, &msg, &plan, None) {
+                            sigs.push(serde_json::json!([hex(&msg), hex(&V::sig_to_bytes(&sig))]));
                         }
-                    };
-                    out.lock().unwrap().insert(i, e);
-                });
-            }
-        });
+                    }
+                    serde_json::json!({"sk": hex(&V::sk_to_bytes(&sk)), "pk": hex(&V::pk_to_bytes(&pk)), "sigs": sigs})
+                }
+            };
+            serde_json::to_vec(&v).unwrap_or_default()
+        };
+        let res = crate::isolate::fork_map(&items, workers, None, &job);
         let mut keys = Vec::new();
         let mut failures = Vec::new();
-        for (_i, e) in out.into_inner().unwrap() {
-            match e {
-                Ok(k) => keys.push(k),
-                Err(f) => failures.push(f),
+        for i in 0..count as u64 {
+            let (seed, _) = seed_of(i);
+            let parsed: Option<serde_json::Value> = match res.get(&i) {
+                Some(Ok(b)) => serde_json::from_slice(b).ok(),
+                Some(Err(f)) => {
+                    failures.push((seed, f.describe()));
+                    continue;
+                }
+                None => {
+                    failures.push((seed, "no result".into()));
+                    continue;
+                }
+            };
+            let v = match parsed {
+                Some(v) => v,
+                None => {
+                    failures.push((seed, "undecodable result".into()));
+                    continue;
+                }
+            };
+            if let Some(e) = v.get("err").and_then(|e| e.as_str()) {
+                failures.push((seed, e.to_string()));
+                continue;
+            }
+            let g = |k: &str| v.get(k).and_then(|x| x.as_str()).and_then(unhex);
+            match (g("sk"), g("pk")) {
+                (Some(sk), Some(pk)) => {
+                    let sigs = v
+                        .get("sigs")
+                        .and_then(|s| s.as_array())
+                        .map(|a| {
+                            a.iter()
+                                .filter_map(|p| {
+                                    let p = p.as_array()?;
+                                    Some((unhex(p.get(0)?.as_str()?)?, unhex(p.get(1)?.as_str()?)?))
+                                })
+                                .collect()
+                        })
+                        .unwrap_or_default();
+                    keys.push(KeyEntry {
+                        seed,
+                        sk_bytes: sk,
+                        pk_bytes: pk,
+                        sigs,
+                        _v: std::marker::PhantomData,
+                    });
+                }
+                _ => failures.push((seed, "missing key bytes".into())),
             }
         }
         KeyPool { keys, failures }
